@@ -248,6 +248,9 @@ class VecEv:
         if isinstance(s, ast.If):
             d = self.scenario(('if', unparse(s.test)))
             if d is None:
+                from .rat import FORK
+                d = FORK.ask(s.test)
+            if d is None:
                 raise Inconclusive(f'undecided branch {unparse(s.test)[:50]}')
             self.run(s.body if d else s.orelse)
             return
